@@ -187,6 +187,14 @@ def impl_pcps_circuit(case):
         out["_gmats"] = [g.as_circuit_matrix([fF]).toarray() for g in circ.gates]
     except Exception as e:
         out["matrix_raised"] = f"{type(e).__name__}: {e}"[:120]
+    if "_mat" in out and case["nF"] <= 5:
+        # second view of the same circuit: its tensor network, contracted (outputs first, then inputs, wire 0 most significant)
+        try:
+            n = case["nF"]
+            from qib.tensor_network.tensor_network import to_full_tensor
+            out["_tn"] = np.reshape(to_full_tensor(*circ.as_tensornet().contract_einsum()), (2 ** n, 2 ** n))
+        except Exception as e:
+            out["tn_raised"] = f"{type(e).__name__}: {e}"[:120]
     try:
         out["_asmat"] = np.asarray(p.as_matrix())
     except Exception as e:
@@ -232,7 +240,9 @@ def build_evt(case, thetas):
     aux = [qs[i] for i in case["aux"]]
     e = case["encoding"]
     if e["kind"] == "ising":
-        fH = qib.field.Field(qib.field.ParticleType.QUBIT, qib.lattice.IntegerLattice((e["nsites"],), pbc=False))
+        # two registers of the same size may be built on ONE lattice object: they are still two different fields
+        lattH = fF.lattice if (case.get("share_lattice") and e["nsites"] == case["nF"]) else qib.lattice.IntegerLattice((e["nsites"],), pbc=False)
+        fH = qib.field.Field(qib.field.ParticleType.QUBIT, lattH)
         H0 = qib.operator.IsingHamiltonian(fH, e["J"], e["h"], e["g"])
         nrm = np.linalg.norm(H0.as_matrix().toarray(), ord=2)
         s = (e["norm"] / nrm) if nrm > 1e-12 else 0.0
@@ -246,7 +256,8 @@ def build_evt(case, thetas):
         ns = e["nsites"]
         fH, hq = (None, [])
         if ns > 0:
-            fH = qib.field.Field(qib.field.ParticleType.QUBIT, qib.lattice.IntegerLattice((ns,), pbc=False))
+            lattH = fF.lattice if (case.get("share_lattice") and ns == case["nF"]) else qib.lattice.IntegerLattice((ns,), pbc=False)
+            fH = qib.field.Field(qib.field.ParticleType.QUBIT, lattH)
             hq = [qib.field.Qubit(fH, i) for i in range(ns)]
         benc = [qs[i] for i in case["block_aux"]]
         r = random.Random(e["useed"])
@@ -513,6 +524,13 @@ def oracle(case, o):
                 kind = "auxiliary-not-returned" if leak > t else "not-phase-shift"
                 bad.append((f"C19:pcps-circuit:auxiliary:{kind}",
                             f"auxiliary circuit (m={len(enc)}, theta={th!r}) on the auxiliary-|0> block differs from exp(i theta (2P0-1)) by {d:.3g} (leak to auxiliary-|1>: {leak:.3g})"))
+        if "tn_raised" in o:
+            bad.append((f"C19:pcps-circuit:{meth}:tensornet-raised", f"as_tensornet() of the phase-shift circuit raised: {o['tn_raised']}"))
+        if "_tn" in o:
+            d = float(np.abs(o["_tn"] - M).max())
+            if d > t:
+                bad.append((f"C19:pcps-circuit:{meth}:tensornet-differs-from-matrix",
+                            f"the contracted tensor network of the phase-shift circuit (m={len(enc)}, enc={enc}, aux={aux}) differs from its matrix by {d:.3g}"))
         if "_asmat" in o:
             m_ = len(case["proj"])
             refm = np.diag(phase_shift_diag(m_, list(range(m_)), th))
@@ -685,6 +703,16 @@ def gen_cases(tier, rng):
                     th = angle_seq(rng, L)
                     yield evt_case("evt.matrix", th, enc, method, m=m)
                     yield evt_case("evt.circuit", th, enc, method, m=m, placement=rng.choice(["test", "canonical", "random"]), rng=rng)
+    # the encoded system lives on a field that shares its lattice OBJECT with the register of the auxiliary / encoding qubits
+    for L in (1, 2, 3, 5):
+        for method in METHODS:
+            for _ in range(3 if thorough else 1):
+                th = angle_seq(rng, L)
+                for enc in (ising(rng, 2, rng.choice(["Wx", "Wxi", "R"]), 0.6), {"kind": "general", "nsites": 2, "useed": rng.randrange(10 ** 9)}):
+                    for op, pl in (("evt.matrix", "test"), ("evt.circuit", "test"), ("evt.circuit", "canonical")):
+                        c = evt_case(op, th, enc, method, placement=pl)
+                        c["share_lattice"] = True
+                        yield c
     # boundary angle sequences on the smallest encoding: every length, all angles equal to each boundary value
     for L in range(1, 8):
         for a in ANGLES:
